@@ -133,6 +133,9 @@ def flatten(items, rng, p_paren, stats, out):
             continue
         kind, sub = it
         wrap = False
+        if kind == 'N':              # bare operator expression: transparent
+            flatten(sub, rng, p_paren, stats, out)
+            continue
         if p_paren and rng is not None and rng.random() < p_paren:
             if kind == 'E0den' and AVOID_DEN_PAREN:
                 stats['excluded_den_paren'] += 1
@@ -243,14 +246,16 @@ def candidates(cells):
     return out
 
 
-def pick_corruption(cells, rng):
+def pick_corruption(cells, rng, salt=0):
     """Two-stage draw (class first, then position) so that rare classes are not
-    drowned by the 16 stray insertions possible at every token."""
+    drowned by the 16 stray insertions possible at every token.  `salt` (a case counter)
+    rotates the class list: Hypothesis favours the ends of an integer range, which
+    would otherwise make the alphabetically first class three times as frequent."""
     cands = candidates(cells)
     if not cands:
         return None
     classes = sorted(set(c[0] for c in cands))
-    cls = classes[rng.randrange(len(classes))]
+    cls = classes[(rng.randrange(len(classes)) + salt) % len(classes)]
     sub = [c for c in cands if c[0] == cls]
     return sub[rng.randrange(len(sub))]
 
